@@ -263,17 +263,21 @@ def is_own_error(cls):
 MODEL_TIE = {"occurs", "clash", "notfun", "unspecified", "reserved"}
 
 
-def run_impl(case, limit):
+def run_impl(case, limit, live=False, escape=None):
     """Runs the real type_infer on a fresh Term built from case['skel'].
-    Returns ('ok', tuple term, checked type or ('illtyped', msg)) | ('error', cls) | ('timeout',)."""
+    Returns ('ok', tuple term, checked type or ('illtyped', msg)) | ('error', cls) | ('timeout',).
+    live=True: do not touch the global context (the caller has set it up through the context API).
+    escape: a list; when the call raises, the exception object is appended to it so that the caller can re-raise
+    it (an exception that leaves a `with` block)."""
     from logic import context
     from syntax import infertype
     from kernel.term import TypeCheckException
     t = tm_obj(case["skel"])
     old = context.ctxt
-    context.ctxt = context.Context(vars={n: ty_obj(T) for n, T in case["vars"].items()},
-                                   svars={n: ty_obj(T) for n, T in case["svars"].items()},
-                                   defs={n: ty_obj(T) for n, T in case.get("defs", {}).items()})
+    if not live:
+        context.ctxt = context.Context(vars={n: ty_obj(T) for n, T in case["vars"].items()},
+                                       svars={n: ty_obj(T) for n, T in case["svars"].items()},
+                                       defs={n: ty_obj(T) for n, T in case.get("defs", {}).items()})
     try:
         with time_limit(limit):
             if case["forbid"]:
@@ -287,9 +291,12 @@ def run_impl(case, limit):
     except MemoryError:
         return ("error", "crash:MemoryError")
     except Exception as e:  # noqa
+        if escape is not None:
+            escape.append(e)
         return ("error", classify_exc(e))
     finally:
-        context.ctxt = old
+        if not live:
+            context.ctxt = old
     try:
         rt = tm_tup(r)
     except Exception as e:  # noqa
@@ -1433,6 +1440,210 @@ def replay_history(ctx, history, limit=60):
     basic.load_theory(THEORY)
 
 
+# ====================================================================== histories over the context API
+class ScopeAbort(Exception):
+    """an exception of a class holpy does not know, raised inside a scope"""
+
+
+def plan_ctx_history(rng, g, hid):
+    """A small program over logic.context / kernel.theory:
+       ["set", vars, svars]                         context.set_context(None, vars=..., svars=...)
+       ["infer", case, escape]                      type_infer under whatever context is live; case['vars'] / ['svars'] are the
+                                                    declarations that SHOULD be live according to the scoping rules
+       ["scope", cm, vars, svars, body, exit]       `with fresh_context(vars=..)` / `with fresh_theory()` around body; exit:
+                                                    normal | raise-tie (the last inference of body fails and its exception leaves the block)
+                                                    | raise-other | return | generator-close
+    """
+    # a well-typed term and its declarations; the inner scope re-declares some of its variables at other types
+    for _ in range(50):
+        g.vars, g.svars, g.nv = {}, {}, 0
+        orig = g.new_term(rng.randint(1, 3))
+        if g.vars:
+            break
+    outer_v, outer_s = dict(g.vars), dict(g.svars)
+
+    def redeclare(vs):
+        vs = dict(vs)
+        ks = sorted(vs)
+        for k in rng.sample(ks, min(len(ks), rng.randint(1, 2))):
+            T = g.rtype(1)
+            while T == vs[k]:
+                T = g.rtype(1)
+            vs[k] = T
+        return vs
+
+    def inf(vs, svs, escape=False, lvl=(1, 0, 0)):
+        case = {"kind": "context-history", "skel": erase(orig, rng, *lvl), "vars": dict(vs), "svars": dict(svs), "forbid": True}
+        if vs == outer_v and svs == outer_s:
+            # under the declarations the term was generated for it is an erasure of a well-typed term
+            case.update({"orig": orig, "declared": True, "must_recover": False})
+        return ["infer", case, escape]
+    prog = [["set", outer_v, outer_s], inf(outer_v, outer_s)]
+    cur = (outer_v, outer_s)
+    for _ in range(rng.randint(1, 3)):
+        r = rng.random()
+        if r < 0.12:
+            nv = redeclare(cur[0])
+            prog.append(["set", nv, cur[1]])
+            cur = (nv, cur[1])
+        elif r < 0.24:
+            # theory scope: the outer theory must be back afterwards (the term uses library constants)
+            ex = rng.choice(["normal", "raise-tie", "raise-other", "return", "generator-close"])
+            prog.append(["scope", "fresh_theory", None, None, [inf(cur[0], cur[1], escape=(ex == "raise-tie"), lvl=(1, 1, 1))], ex])
+        else:
+            inner_v = redeclare(cur[0])
+            ex = rng.choice(["raise-tie", "raise-tie", "raise-tie", "normal", "raise-other", "return", "generator-close"])
+            body = [inf(inner_v, cur[1], escape=(ex == "raise-tie"))]
+            if rng.random() < 0.3:
+                # nested once more; the failing inference sits in the innermost scope
+                inner2 = redeclare(inner_v)
+                body = [inf(inner_v, cur[1]), ["scope", "fresh_context", inner2, cur[1],
+                                               [inf(inner2, cur[1], escape=(ex == "raise-tie"))], ex]]
+            prog.append(["scope", "fresh_context", inner_v, cur[1], body, ex])
+        # back in the enclosing scope: its declarations must be live again
+        prog.append(inf(cur[0], cur[1], lvl=rng.choice([(1, 0, 0), (1, 0, 0), (1, 1, 1)])))
+    return prog
+
+
+def exec_ctx_program(ctx, prog, sig, judge, limit=5):
+    """runs a context-history program against the real API; judge(case, result) is called for every inference"""
+    from kernel import theory
+    from logic import context
+
+    def cm_of(op):
+        if op[1] == "fresh_theory":
+            return theory.fresh_theory()
+        return context.fresh_context(vars={n: ty_obj(T) for n, T in op[2].items()},
+                                     svars={n: ty_obj(T) for n, T in op[3].items()})
+
+    def run_ops(ops):
+        for op in ops:
+            if op[0] == "set":
+                context.set_context(None, vars={n: ty_obj(T) for n, T in op[1].items()},
+                                    svars={n: ty_obj(T) for n, T in op[2].items()})
+            elif op[0] == "infer":
+                esc = []
+                res = run_impl(op[1], limit, live=True, escape=esc)
+                judge(op[1], res)
+                if op[2] and esc:
+                    raise esc[0]            # the caller of the parser sees type_infer's exception
+            else:
+                body, ex = op[4], op[5]
+
+                def with_block():
+                    with cm_of(op):
+                        run_ops(body)
+                        if ex == "raise-other":
+                            raise ScopeAbort()
+                        if ex == "return":
+                            return 1
+                    return 0
+
+                def gen_block():
+                    with cm_of(op):
+                        run_ops(body)
+                        yield 1
+                        yield 2
+                if ex == "generator-close":
+                    it = gen_block()
+                    try:
+                        next(it)
+                    finally:
+                        it.close()
+                else:
+                    try:
+                        with_block()
+                    except ScopeAbort:
+                        pass
+                    except Exception as e:  # noqa
+                        # what parsers / the server do: catch the failure of the inner parse and go on
+                        if type(e).__name__ not in ("TypeInferenceException", "TheoryException"):
+                            raise
+    old_ctxt, old_thy = context.ctxt, theory.thy
+    try:
+        run_ops(prog)
+    finally:
+        context.ctxt, theory.thy = old_ctxt, old_thy
+
+
+def run_ctx_histories(ctx, rng, sig, nhist, limit=5):
+    """Histories over the context API (set_context, nested fresh_context, fresh_theory) in which an exception leaves a
+    scope: afterwards the declarations and the theory of the enclosing scope must be live again.  Every inference is
+    judged against the declarations that the scoping rules say are live (the same a fresh process would use)."""
+    g = TermGen(rng, sig)
+    batch, batch_res = [], []
+    for hid in range(nhist):
+        prog = plan_ctx_history(rng, g, hid)
+
+        def judge(case, res, prog=prog):
+            c = dict(case)
+            c["ctx_history"] = prog
+            res2 = oracle(ctx, c, res, sig if not c.get("_empty_theory") else empty_theory_sig())
+            ctx.case(("ctx-history", hid, case_key(case)), nontrivial=True)
+            ctx.count("context-history:%s" % (res2[0] if res2[0] != "error" else res2[1].replace("tie:", "")))
+            if not c.get("_empty_theory"):
+                batch.append(case)
+                batch_res.append(res2)
+        mark_theory_scopes(prog)
+        exec_ctx_program(ctx, prog, sig, judge, limit)
+    if batch:
+        out = ctx.lean_driver(EXE, [request_line(c, sig) for c in batch])
+        if out is None:
+            return False
+        compare_model(ctx, batch, batch_res, out, "context-history")
+    return True
+
+
+def empty_theory_sig():
+    from kernel import theory
+    return {n: ty_tup(T) for n, T in theory.EmptyTheory().get_data("term_sig").items()}
+
+
+def mark_theory_scopes(prog, inside=False):
+    """inferences inside `with fresh_theory()` run in the EmptyTheory: judged against the empty signature"""
+    for op in prog:
+        if op[0] == "infer":
+            if inside:
+                op[1]["_empty_theory"] = True
+                op[1].pop("orig", None)          # not a well-typed term over the empty theory's signature
+        elif op[0] == "scope":
+            mark_theory_scopes(op[4], inside or op[1] == "fresh_theory")
+
+
+def ctx_prog_from_json(prog):
+    out = []
+    for op in prog:
+        if op[0] == "set":
+            out.append(["set", {k: from_json(v) for k, v in op[1].items()}, {k: from_json(v) for k, v in op[2].items()}])
+        elif op[0] == "infer":
+            c = dict(op[1])
+            for f in ("orig", "skel"):
+                if f in c:
+                    c[f] = from_json(c[f])
+            c["vars"] = {k: from_json(v) for k, v in c["vars"].items()}
+            c["svars"] = {k: from_json(v) for k, v in c["svars"].items()}
+            out.append(["infer", c, op[2]])
+        else:
+            out.append(["scope", op[1], None if op[2] is None else {k: from_json(v) for k, v in op[2].items()},
+                        None if op[3] is None else {k: from_json(v) for k, v in op[3].items()}, ctx_prog_from_json(op[4]), op[5]])
+    return out
+
+
+def ctx_prog_str(prog, ind=0):
+    out = []
+    for op in prog:
+        pad = "  " * ind
+        if op[0] == "set":
+            out.append(pad + "set_context(vars=%s)" % {k: ty_str(v) for k, v in op[1].items()})
+        elif op[0] == "infer":
+            out.append(pad + "type_infer(%s)%s   # declared: %s" % (tm_str(op[1]["skel"]), "  [its exception leaves the scope]" if op[2] else "",
+                                                                 {k: ty_str(v) for k, v in op[1]["vars"].items()}))
+        else:
+            out.append(pad + "with %s(%s):   # exit: %s" % (op[1], "" if op[2] is None else "vars=%s" % {k: ty_str(v) for k, v in op[2].items()}, op[5]))
+            out += ctx_prog_str(op[4], ind + 1)
+    return out
+
+
 # ====================================================================== oracle
 def case_key(case):
     return "%s|%s|%s|%s%s" % (tm_str(case["skel"]), sorted((k, ty_str(v)) for k, v in case["vars"].items()),
@@ -1452,6 +1663,9 @@ def replay_dict(case, res, extra=None):
     if "history" in case:
         # the steps (theory switches, declarations, inferences) that preceded and include this inference
         d["history"] = json.loads(json.dumps(case["history"]))
+    if "ctx_history" in case:
+        d["ctx_history"] = json.loads(json.dumps(case["ctx_history"]))
+        d["program"] = ctx_prog_str(case["ctx_history"])
     if extra:
         d.update(extra)
     return d
@@ -1474,6 +1688,10 @@ def oracle(ctx, case, res, sig, limit_confirm=60):
             if h is not None and h[2] is not None and h[1] in dfs and h[2] != dfs[h[1]]:
                 # one defect class: the annotation on the head of a definition's lhs is replaced by the declared type
                 k = "defs-head-annotation-overwritten"
+        if "ctx_history" in case:
+            # one class per kind of failure: the cause is the preceding scope handling, not the skeleton
+            k = "context-history:" + k.split(":")[0]
+            what = "after entering and leaving scopes of the context API: %s" % what
         if "history" in case:
             # one class per kind of failure: what goes wrong depends on the preceding theory switches, not on the skeleton
             k = "history:" + k.split(":")[0]
@@ -1740,7 +1958,11 @@ def run(ctx):
         "EmptyTheory() / `with fresh_theory()` + add_term_sig of generated constants and of library constant names re-declared at other "
         "types), erasures of well-typed terms over the signature current at each step, judged against that signature; (g) mixed kinds of "
         "type variables: declared variables over 'a / 'b and schematic variables over ?'a / ?'b with equal names, a TVar called _t0, x and ?x "
-        "; (h) reserved names: ?'_t0, ?'_t7, ?'_tx, ?'_t, ?'_table ... in annotations of variables / constants / binders, in declared types "
+        "; (f2) context histories through the real API: set_context, nested `with fresh_context(...)` re-declaring variables at other types, "
+        "`with fresh_theory()`, each scope left normally / by type_infer's own exception caught outside the scope (as parsers and the "
+        "server do) / by an exception of a foreign class / by `return` / by closing a generator suspended inside the scope; after every "
+        "scope the same erasure is inferred again in the enclosing scope and judged against the declarations and theory that must be live "
+        "there; (h) reserved names: ?'_t0, ?'_t7, ?'_tx, ?'_t, ?'_table ... in annotations of variables / constants / binders, in declared types "
         "and in ctxt.defs; (i) definitions being parsed: `f x1..xn = rhs` under Context(defs={f: T}) as server/items.py does, f new or an "
         "overloaded constant of the signature, T monomorphic / over rigid 'a / over ?'a, recursive calls, annotated heads, malformed shapes "
         "with the same name, in hand-made clashes and in well-typed terms where one declared variable has 'a and ?'a exchanged. "
@@ -1771,6 +1993,7 @@ def run(ctx):
     hand = gen_handmade()
     have_model &= check_cases(ctx, hand, sig, "hand")
     have_model &= run_histories(ctx, ctx.rng("histories"), ctx.scale(120, 1500))
+    have_model &= run_ctx_histories(ctx, ctx.rng("context-histories"), sig, ctx.scale(150, 2000))
     tv = gen_tvsv(ctx.rng("tvsv"), sig, ctx.scale(300, 5000), 3)
     have_model &= check_cases(ctx, tv, sig, "tvsv")
     rn = gen_reserved(ctx.rng("reserved"), ctx.scale(200, 3000))
@@ -1799,6 +2022,21 @@ def replay(ctx, rp):
     """Re-run one recorded failing input on the implementation; returns True if it still fails."""
     r = rp["replay"]
     sig = load_sig(ctx)
+    if "ctx_history" in r:
+        ctx._nreplay = 1000
+        prog = ctx_prog_from_json(r["ctx_history"])
+        print("\n".join(ctx_prog_str(prog)))
+        mark_theory_scopes(prog)
+
+        def judge(case, res):
+            c = dict(case)
+            c["ctx_history"] = prog
+            print("  ->", res if res[0] != "ok" else tm_str(res[1]))
+            oracle(ctx, c, res, sig if not c.get("_empty_theory") else empty_theory_sig())
+        exec_ctx_program(ctx, prog, sig, judge, 60)
+        for v in ctx.violations:
+            print("still fails:", v[1])
+        return bool(ctx.violations)
     if "history" in r:
         ctx._nreplay = 1000
         replay_history(ctx, r["history"])
@@ -1858,7 +2096,9 @@ MANIFEST = {
             "AND type, is a different variable from an x of another type - parse_term(\"(x::nat) = 0 & x\") returns x at nat and at bool; "
             "this is what the code does on purpose (the printer relies on it for legal terms with one name at two types) and is stated "
             "in the theorem comment, not treated as a violation. The kind of TypeInferenceException is not compared (message text only). "
-            "History independence (each call sees the signature of the current theory only) is tested by in-process theory-switch histories.",
+            "History independence (each call sees the signature of the current theory only) is tested by in-process theory-switch histories; that "
+            "an exception leaving `with fresh_context` / `with fresh_theory` restores the enclosing declarations / theory is tested by "
+            "context-API histories (syntax.settings.global_setting is not read by type_infer and belongs to the printer, C07).",
     "design_ref": "DESIGN.md 4/C08",
 }
 FINDINGS = [
